@@ -78,11 +78,17 @@ def check(ctx):
         ctx.missing("R1", "rhs-init", (FILE, m.func.lineno), f"expected one initialisation of rhs, found {len(inits)}")
     else:
         v = simp(inits[0].fact.value)
-        b = match(("binop", "Mult", ("list", (("const", "0.0"),)), V("n")), v) or \
-            match(("binop", "Mult", V("n"), ("list", (("const", "0.0"),))), v)
-        ctx.check(bool(b) and m.is_n_eqns(b["n"]), "R1", "rhs-init", where(inits[0]),
-                  "rhs = ['0.0'] * n_eqns with n_eqns = max(n_spec + has_thermal, 1)",
-                  expected="['0.0'] * max(len(species) + has_thermal, 1)", found=show(v))
+        # n copies of one constant: [c] * n, n * [c], [c for _ in range(n)]
+        b = match(("binop", "Mult", ("list", (V("c"),)), V("n")), v) or match(("binop", "Mult", V("n"), ("list", (V("c"),))), v)
+        if not b and v[0] == "comp" and v[1] == "list" and len(v[3]) == 1 and not v[3][0][2] and v[2][0] == "const":
+            r = match(("call", ("global", "range"), (V("n"),), ()), v[3][0][1])
+            b = {"c": v[2], "n": r["n"]} if r else None
+        if not b or b["c"][0] != "const":
+            ctx.unrec("R1", "rhs-init", where(inits[0]), f"rhs is not created as n copies of a constant: {show(v)[:120]}")
+        else:
+            ctx.check(b["c"] == ("const", "0.0") and m.is_n_eqns(b["n"]), "R1", "rhs-init", where(inits[0]),
+                      "rhs = ['0.0'] * n_eqns with n_eqns = max(n_spec + has_thermal, 1)",
+                      expected="['0.0'] * max(len(species) + has_thermal, 1)", found=show(v))
 
     reaction_sites(ctx, m)
 
@@ -168,65 +174,103 @@ def reaction_sites(ctx, m, r_loss="R2", r_gain="R3"):
 
 
 
+def _list_with_tail(v):
+    """A list value that is a base list L, plus one constant element when a condition holds, however spelled:
+    `L; if c: L.append(x)`  |  `L + ([x] if c else [])`  |  `(L + [x]) if c else L`.   -> (L, cond, x) | (v, None, None)"""
+    v = simp(v)
+
+    def plus_one(a):
+        if a[0] == "appended":
+            return a[1], a[2]
+        if a[0] == "binop" and a[1] == "Add" and a[3][0] == "list" and len(a[3][1]) == 1:
+            return a[2], a[3][1][0]
+        return None
+    if v[0] in ("phi", "ifexp"):
+        a = plus_one(v[2])
+        if a and a[0] == v[3]:
+            return v[3], v[1], a[1]
+    if v[0] == "binop" and v[1] == "Add" and v[3][0] == "ifexp" and v[3][3] == ("list", ()) and v[3][2][0] == "list" and len(v[3][2][1]) == 1:
+        return v[2], v[3][1], v[3][2][1][0]
+    return v, None, None
+
+
+def _paired_rows(fv):
+    """fex as (element expression in terms of ("L",) / ("R",), left list, right list): `[.. for l, r in zip(A, B)]` or
+    `[.. A[i] .. B[i] .. for i in range(..)]`; None when the shape is not one of these"""
+    from ..valueflow import subst
+    if not (fv and fv[0] == "comp" and len(fv[3]) == 1):
+        return None
+    tg, it, ifs = fv[3][0]
+    if ifs:
+        return None
+    b = match(("call", ("global", "zip"), (V("a"), V("b")), ()), it)
+    if b and tg[0] == "tuple" and len(tg[1]) == 2:
+        return simp(subst(fv[2], {tg[1][0]: ("L",), tg[1][1]: ("R",)})), b["a"], b["b"]
+    if it[0] == "call" and it[1] == ("global", "range") and len(it[2]) == 1 and tg[0] == "bv":
+        subs = {x for x in _subterms(fv[2]) if isinstance(x, tuple) and len(x) == 3 and x[0] == "sub" and x[2] == tg}
+        bases = sorted({x[1] for x in subs}, key=str)
+        if len(bases) == 2:
+            for a, b_ in (bases, bases[::-1]):
+                e = simp(subst(fv[2], {("sub", a, tg): ("L",), ("sub", b_, tg): ("R",)}))
+                if not any(x == tg for x in _subterms(e)) and e[0] == "fstr" and e[1] and e[1][0][:2] == ("fmt", ("L",)):
+                    return e, a, b_
+    return None
+
+
 def _r4(ctx, m):
     fl = m.flow
     env = fl.env
-    # the locals are found by ROLE, not by name: fex = 4th field of the returned ODEContent, lhs = first list zipped into it,
+    # the locals are found by ROLE, not by name: fex = 4th field of the returned ODEContent, lhs = first list paired into it,
     # y = the local list whose entries are 'y[IDX_<alias>]'
     fex_v = lhs_v = None
     for f in fl.facts:
         if f.kind == "return" and f.value and f.value[0] == "meth" and f.value[2] == "ODEContent":
             v = f.value
             fex_v = simp(v[3][3]) if len(v[3]) >= 4 else next((simp(x) for k, x in v[4] if k == "fex"), None)
-    if fex_v and fex_v[0] == "comp" and len(fex_v[3]) == 1:
-        b0 = match(("call", ("global", "zip"), (V("a"), V("b")), ()), fex_v[3][0][1])
-        if b0:
-            lhs_v = b0["a"]
+    pr = _paired_rows(fex_v)
+    if pr:
+        lhs_v = pr[1]
     yv = None
     for nm, val in env.items():
-        pm0 = prefix_map(simp(val)) if val else None
+        if not val:
+            continue
+        base_l = _list_with_tail(val)[0]
+        pm0 = prefix_map(base_l) if base_l[0] in ("comp", "copy", "appended", "phi") else None
         if pm0 and pm0[1] == Y(pm0[0]):
             yv = val
-    pm = prefix_map(simp(yv)) if yv else None
-    if not pm:
-        ctx.unrec("R4", "y", (FILE, m.func.lineno), "abundance symbol list `y` not reconstructible")
-    else:
+    for what, lv, SYM, tail, expected in (("y", yv, Y, "y[IDX_TGAS]", "[f'y[IDX_{x.alias}]' for x in netinfo.species]"),
+                                        ("lhs", lhs_v, YDOT, "ydot[IDX_TGAS]", "[f'ydot[IDX_{x.alias}]' for x in netinfo.species]")):
+        if lv is None:
+            ctx.unrec("R4", what, (FILE, m.func.lineno), f"`{what}` not reconstructible" if what == "lhs" else "abundance symbol list `y` not reconstructible")
+            continue
+        L, cond, x = _list_with_tail(lv)
+        pm = prefix_map(L) if L[0] in ("comp", "copy", "appended", "phi") else None
+        if not pm:
+            ctx.unrec("R4", what, (FILE, m.func.lineno), f"`{what}` not reconstructible" if what == "lhs" else "abundance symbol list `y` not reconstructible")
+            continue
         bv, body, base, ifs = pm
-        ctx.check(base == m.SPEC and not ifs and body == Y(bv), "R4", "y-binding", (FILE, m.func.lineno),
-                  "y[i] = 'y[IDX_<alias of species[i]>]' over the unfiltered species list",
-                  expected="[f'y[IDX_{x.alias}]' for x in netinfo.species]", found=show(simp(yv))[:160])
-    lv = lhs_v
-    pm = prefix_map(simp(lv)) if lv else None
-    if not pm:
-        ctx.unrec("R4", "lhs", (FILE, m.func.lineno), "`lhs` not reconstructible")
-    else:
-        bv, body, base, ifs = pm
-        ctx.check(base == m.SPEC and not ifs and body == YDOT(bv), "R4", "lhs-binding", (FILE, m.func.lineno),
-                  "lhs[i] = 'ydot[IDX_<alias of species[i]>]' over the unfiltered species list",
-                  expected="[f'ydot[IDX_{x.alias}]' for x in netinfo.species]", found=show(simp(lv))[:160])
+        ctx.check(base == m.SPEC and not ifs and body == SYM(bv), "R4", f"{what}-binding", (FILE, m.func.lineno),
+                  f"{what}[i] = '{tail.split('[')[0]}[IDX_<alias of species[i]>]' over the unfiltered species list",
+                  expected=expected, found=show(simp(lv))[:160])
         # thermal tail
-        v = simp(lv)
-        tail_ok = v[0] == "phi" and m.is_has_thermal(v[1]) and v[2][0] == "appended" and v[2][2] == ("const", "ydot[IDX_TGAS]")
-        ctx.check(tail_ok, "R4", "lhs-thermal", (FILE, m.func.lineno),
-                  "lhs gets 'ydot[IDX_TGAS]' appended exactly when has_thermal", found=show(v)[:160])
-    yv_s = simp(yv) if yv else None
-    if yv_s:
-        tail_ok = yv_s[0] == "phi" and m.is_has_thermal(yv_s[1]) and yv_s[2][0] == "appended" and yv_s[2][2] == ("const", "y[IDX_TGAS]")
-        ctx.check(tail_ok, "R4", "y-thermal", (FILE, m.func.lineno),
-                  "y gets 'y[IDX_TGAS]' appended exactly when has_thermal", found=show(yv_s)[:160])
+        if cond is None:
+            ctx.unrec("R4", f"{what}-thermal", (FILE, m.func.lineno), f"how `{what}` gets its temperature entry is not understood: {show(simp(lv))[:120]}")
+        else:
+            ctx.check(m.is_has_thermal(cond) and x == ("const", tail), "R4", f"{what}-thermal", (FILE, m.func.lineno),
+                      f"{what} gets '{tail}' appended exactly when has_thermal", found=show(simp(lv))[:160])
+    lv = lhs_v
     fv = fex_v
-    ok = False
-    if fv and fv[0] == "comp" and len(fv[3]) == 1:
-        tg, it, ifs = fv[3][0]
-        b = match(("call", ("global", "zip"), (V("a"), V("b")), ()), it)
-        if b and not ifs and tg[0] == "tuple" and len(tg[1]) == 2:
-            l, r = tg[1]
-            elt = fv[2]
-            want = ("fstr", (("fmt", l, None, -1), ("const", " = "), ("fmt", r, None, -1), ("const", ";")))
-            ok = elt == want and b["b"] == m.RHS and (b["a"] == simp(lv) or b["a"] == lv)
-    ctx.check(ok, "R4", "fex-zip", (FILE, m.func.lineno),
-              "fex = [f'{l} = {r};' for l, r in zip(lhs, rhs)] pairs row i of lhs with row i of rhs",
-              found=show(fv)[:200] if fv else None)
+    if fv is not None and pr is None:
+        ctx.unrec("R4", "fex-zip", (FILE, m.func.lineno), f"how the statements pair lhs with rhs is not understood: {show(fv)[:160]}")
+    else:
+        ok = False
+        if pr:
+            elt, a, b = pr
+            want = ("fstr", (("fmt", ("L",), None, -1), ("const", " = "), ("fmt", ("R",), None, -1), ("const", ";")))
+            ok = elt == want and b == m.RHS
+        ctx.check(ok, "R4", "fex-zip", (FILE, m.func.lineno),
+                  "fex = [f'{l} = {r};' for l, r in zip(lhs, rhs)] pairs row i of lhs with row i of rhs",
+                  found=show(fv)[:200] if fv else None)
     # fex is what ODEContent receives
     rets = [f for f in fl.facts if f.kind == "return"]
     okret = False
@@ -602,6 +646,11 @@ MUTANTS = [
     {"name": "textwrapper-breaks-words", "file": "naunet/utilities.py", "old": "wrappedlist = wrap(text, width - indent, break_long_words=False)", "new": "import textwrap\n    wrappedlist = textwrap.TextWrapper(width=width - indent).wrap(text)", "rules": ["R8"]},
     {"name": "kernel-set-drops-rebase", "file": TEMPLATES["cvode"], "old": '            {{ eq | replace("ydot[IDX", "ydot[yistart + IDX") | replace("y[IDX", "y_cur[IDX") | stmwrap(80, 12) }}', "new": '            {% set dev = eq | replace("ydot[IDX", "ydot[yistart + IDX") -%}\n            {{ dev | stmwrap(80, 12) }}', "rules": ["R8"]},
     {"name": "reactants-append-loop-unfiltered", "file": 'naunet/reactions/reaction.py', "old": '        self.reactants = [\n            self._create_species(r.strip())\n            for r in rps[0:3]\n            if self._create_species(r.strip())\n        ]\n', "new": '        found = []\n        for col in rps[0:3]:\n            nm = col.strip()\n            found.append(self._create_species(nm))\n        self.reactants = found\n', "rules": ["R6"]},
+    {"name": "rhs-init-comprehension-ones", "file": T, "old": '        rhs = ["0.0"] * n_eqns\n', "new": '        rhs = ["1.0" for _ in range(n_eqns)]\n', "rules": ["R1"]},
+    {"name": "lhs-tail-heating-only", "file": T, "old": '        lhs = [f"ydot[IDX_{x.alias}]" for x in species]\n        if has_thermal:\n            lhs.append("ydot[IDX_TGAS]")\n', "new": '        lhs = [f"ydot[IDX_{x.alias}]" for x in species] + (["ydot[IDX_TGAS]"] if netinfo.heating else [])\n        if has_thermal:\n', "rules": ["R4"]},
+    {"name": "fex-by-index-swapped", "file": T, "old": 'fex = [f"{l} = {r};" for l, r in zip(lhs, rhs)]', "new": 'fex = [f"{rhs[i]} = {lhs[i]};" for i in range(len(rhs))]', "rules": ["R4"]},
+    {"name": "loss-assign-plus-sign", "file": T, "old": 'rhs[specidx] += f" - {rate_sym}[{rl}]*{rsym_mul}"', "new": 'rhs[specidx] = rhs[specidx] + f" + {rate_sym}[{rl}]*{rsym_mul}"', "rules": ["R2"]},
+    {"name": "has-thermal-heating-only", "file": T, "old": "has_thermal = True if netinfo.heating or netinfo.cooling else False", "new": "has_thermal = len(netinfo.heating) > 0", "rules": ["R1", "R4", "R7"]},
     {"name": "lhs-sorted", "file": T, "old": 'lhs = [f"ydot[IDX_{x.alias}]" for x in species]', "new": 'lhs = [f"ydot[IDX_{x.alias}]" for x in sorted(species)]', "rules": ["R4"]},
     {"name": "create-species-no-filter", "file": "naunet/reactions/reaction.py", "old": "[self._create_species(r) for r in reactants if self._create_species(r)]", "new": "[self._create_species(r) for r in reactants]", "rules": ["R6"]},
     {"name": "tgas-macro", "file": "naunet/templates/base/cpp/include/naunet_macros.h.j2", "old": "#define IDX_TGAS NSPECIES", "new": "#define IDX_TGAS NEQUATIONS", "rules": ["R4"]},
@@ -623,5 +672,11 @@ BENIGN = [
         {"file": TEMPLATES["cvode"], "old": '            {{ eq | replace("ydot[IDX", "ydot[yistart + IDX") | replace("y[IDX", "y_cur[IDX") | stmwrap(80, 12) }}', "new": '            {{ rebased(eq) | stmwrap(80, 12) }}'}]},
     {"name": "reactants-append-loop", "file": 'naunet/reactions/reaction.py', "old": '        self.reactants = [\n            self._create_species(r.strip())\n            for r in rps[0:3]\n            if self._create_species(r.strip())\n        ]\n', "new": '        found = []\n        for col in rps[0:3]:\n            nm = col.strip()\n            if self._create_species(nm):\n                found.append(self._create_species(nm))\n        self.reactants = found\n'},
     {"name": "reactants-filter-conjunction", "file": 'naunet/reactions/reaction.py', "old": '        self.reactants = [\n            self._create_species(r.strip())\n            for r in rps[0:3]\n            if self._create_species(r.strip())\n        ]\n', "new": '        self.reactants = [\n            self._create_species(r.strip())\n            for r in rps[0:3]\n            if r.strip() != "" and self._create_species(r.strip())\n        ]\n'},
+    {"name": "rhs-init-comprehension", "file": T, "old": '        rhs = ["0.0"] * n_eqns\n', "new": '        rhs = ["0.0" for _ in range(n_eqns)]\n'},
+    {"name": "lhs-tail-concatenated", "file": T, "old": '        lhs = [f"ydot[IDX_{x.alias}]" for x in species]\n        if has_thermal:\n            lhs.append("ydot[IDX_TGAS]")\n', "new": '        lhs = [f"ydot[IDX_{x.alias}]" for x in species] + (["ydot[IDX_TGAS]"] if has_thermal else [])\n        if has_thermal:\n'},
+    {"name": "fex-by-index", "file": T, "old": 'fex = [f"{l} = {r};" for l, r in zip(lhs, rhs)]', "new": 'fex = [f"{lhs[i]} = {rhs[i]};" for i in range(len(rhs))]'},
+    {"name": "loss-assign-plus", "file": T, "old": 'rhs[specidx] += f" - {rate_sym}[{rl}]*{rsym_mul}"', "new": 'rhs[specidx] = rhs[specidx] + f" - {rate_sym}[{rl}]*{rsym_mul}"'},
+    {"name": "has-thermal-by-length", "file": T, "old": "has_thermal = True if netinfo.heating or netinfo.cooling else False", "new": "has_thermal = len(netinfo.heating) + len(netinfo.cooling) > 0"},
+    {"name": "n-eqns-int-flag", "file": T, "old": "n_eqns = max(n_spec + has_thermal, 1)", "new": "n_eqns = max(1, n_spec + int(has_thermal))"},
     {"name": "template-reindent", "file": TEMPLATES["cvode"], "old": "    {% for eq in ode.fex -%}\n        {{ eq | stmwrap(80, 8) }}", "new": "    {% for eq in ode.fex -%}\n      {{ eq|stmwrap(80, 6) }}"},
 ]
